@@ -33,9 +33,9 @@ def published():
 
 def bounds(tier):
     q = tier == "quick"
-    return {"dense": f"values 1..B+3, 1..{6 if q else 7} items, B in (6,10,12)",
-            "long": f"values 1..5 (B=6) and {{1,2,3,4,5,7}} (B=10), {7 if q else 8}..{10 if q else 12} items",
-            "planted": f"B=12, letters {PLANT[1]}, patterns <= {PLANT[2]} parts, m=2..{8 if q else 12}",
+    return {"dense": f"values 1..B+3, 1..{6 if q else 8} items, B in (6,10,12)",
+            "long": f"values 1..5 (B=6) and {{1,2,3,4,5,7}} (B=10), {7 if q else 9}..{10 if q else 13} items",
+            "planted": f"B=12, letters {PLANT[1]}, patterns <= {PLANT[2]} parts, m=2..{8 if q else 13}",
             "planted-big": "B=12, 13, 9 (letters 1..7 / 1..5) and B=101, 99 (letters 1, 2 and the integers next to B/6, B/3, B/2, 2B/3); every unordered pair of patterns (<=4 parts) with multiplicities " + ("(64,0),(40,24),(100,20)" if q else "(64,0),(40,24),(100,20),(20,100),(150,150)") + ": OPT = 64..300 bins, up to ~1200 items",
             "big": "B in {1e6, 2**32, 2**32+2, 3*2**31, 1e10} with letters 1, 2, the integers next to B/3 and B/2, B, B+1; 1..5(6) items; exhaustive OPT",
             "fractional": "B=7.5 (items 1..10), B=10.5 (items 1..12), 1..5(6) items; exhaustive OPT",
@@ -46,10 +46,10 @@ def tasks(tier):
     q = tier == "quick"
     ts = []
     for B in (6, 10, 12):
-        for ch in scopes.chunk_multisets(range(1, B + 4), 1, 6 if q else 7, 600):
+        for ch in scopes.chunk_multisets(range(1, B + 4), 1, 6 if q else 8, 600):
             ts.append(("dense", [(ms, B, None) for ms in ch], None))
     for alpha, B in ((range(1, 6), 6), ((1, 2, 3, 4, 5, 7), 10)):
-        for ch in scopes.chunk_multisets(alpha, 7 if q else 8, 10 if q else 12, 200):
+        for ch in scopes.chunk_multisets(alpha, 7 if q else 9, 10 if q else 13, 200):
             ts.append(("long", [(ms, B, None) for ms in ch], None))
     B, letters, mp = PLANT
     for m in (range(2, 9) if q else range(2, 13)):
@@ -73,10 +73,10 @@ def tasks(tier):
         ts.append(("count-sweep", ch, None))
     # near-miss sums at large magnitudes (B-1 is reachable as a sum: a tolerance or a narrower number type over-reports)
     for Bc in scopes.BIG_BINSIZES:
-        for ch in scopes.chunk_multisets(scopes.threshold_letters(Bc), 1, 5 if q else 6, 300):
+        for ch in scopes.chunk_multisets(scopes.threshold_letters(Bc), 1, 5 if q else 7, 300):
             ts.append(("big", [(ms, Bc, None) for ms in ch], None))
     for Bf, top in ((7.5, 10), (10.5, 12)):
-        for ch in scopes.chunk_multisets(range(1, top + 1), 1, 5 if q else 6, 300):
+        for ch in scopes.chunk_multisets(range(1, top + 1), 1, 5 if q else 7, 300):
             ts.append(("fractional", [(ms, Bf, None) for ms in ch], None))
     ts.append(("published", published(), None))
     return ts
